@@ -153,13 +153,19 @@ class Pair:
     def tr(self, who):
         return self.st if who == "S" else self.ct
 
-    def deliver(self, to, k=None):
-        """move k (all) unread octets written by the other side into `to`"""
+    def deliver(self, to, k=None, burst=None):
+        """move k (all) unread octets written by the other side into `to`; burst = cut positions: the octets arrive as
+        several reads without an event-loop turn in between"""
         src = self.ct if to == "S" else self.st
         d = src.take(k)
         if not d or self.lost[to]:
             return 0
-        e = fw.feed(self.proto(to), d)
+        if burst:
+            cuts = sorted(set(c for c in burst if 0 < c < len(d)))
+            chunks = [d[a:b] for a, b in zip([0] + cuts, cuts + [len(d)])]
+            e = fw.feed_burst(self.proto(to), chunks)
+        else:
+            e = fw.feed(self.proto(to), d)
         if e is not None:
             self.escaped.append((to, type(e).__name__, str(e)[:200]))
             self.log.append(("escape", to, type(e).__name__))
